@@ -309,7 +309,12 @@ fn cpu_seconds(pid: u32) -> Option<f64> {
 impl Worker {
     pub fn spawn(id: &str) -> Worker {
         let exe = std::env::current_exe().expect("current_exe");
-        let mut child = Command::new(exe)
+        // address-space limit: an input that makes svgdx allocate without bound must end as an
+        // allocation failure (abort) of this worker, not as memory pressure on the whole machine
+        let mut child = Command::new("/bin/sh")
+            .arg("-c")
+            .arg("ulimit -v 6291456; exec \"$0\" \"$@\"")
+            .arg(exe)
             .arg("worker")
             .arg(id)
             .stdin(Stdio::piped())
